@@ -1,7 +1,7 @@
 (* Round trip of the wire format model: every parser inverts its printer (digits, numbers,
    byte arrays, JSON strings with both escapers, base64, options, lists, records, the two
    top-level messages), for values of any size. *)
-From Verif Require Import Base.Util Model.Types Model.Validate Model.Wire Proofs.TypesProofs.
+From Verif Require Import Base.Util Model.Types Model.Validate Model.Wire Proofs.TypesProofs Proofs.ValidateProofs.
 From Coq Require Import String Ascii Decimal DecimalN DecimalZ DecimalPos DecimalFacts.
 From Coq Require Import ZifyBool ZifyNat ZifyN.
 Open Scope N_scope.
@@ -466,3 +466,46 @@ Theorem decode_outcome_enc iota utg wg o : wf_outcome o ->
   decode_outcome iota utg wg (enc_outcome o) =
   match outcome_err utg wg (abs_outcome iota o) with ok => D_ok o | e => D_invalid e end.
 Proof. intro H. unfold decode_outcome. rewrite dec_enc_outcome by exact H. reflexivity. Qed.
+
+(* ------------------------------------------------------------------ decode is sound for ANY text *)
+Theorem decode_obs_sound iota utg wg s w :
+  decode_obs iota utg wg s = D_ok w -> dec_obs s = Some w /\ obs_rules utg wg (abs_obs iota w).
+Proof.
+  unfold decode_obs. destruct (dec_obs s) as [w'|]; [|discriminate].
+  destruct (obs_err utg wg (abs_obs iota w')) eqn:E; try discriminate.
+  intro H. inversion H; subst. split; [reflexivity|].
+  apply valid_obs_iff. unfold valid_obs. rewrite E. reflexivity.
+Qed.
+
+Theorem decode_outcome_sound iota utg wg s w :
+  decode_outcome iota utg wg s = D_ok w -> dec_outcome s = Some w /\ outcome_rules utg wg (abs_outcome iota w).
+Proof.
+  unfold decode_outcome. destruct (dec_outcome s) as [w'|]; [|discriminate].
+  destruct (outcome_err utg wg (abs_outcome iota w')) eqn:E; try discriminate.
+  intro H. inversion H; subst. split; [reflexivity|].
+  apply valid_outcome_iff. unfold valid_outcome. rewrite E. reflexivity.
+Qed.
+
+(* nil and empty slices are different wire values with the same abstraction *)
+Definition norm_res (r : wres) : wres :=
+  mkWRes (wr_state r) (wr_retryable r) (wr_eligible r) (wr_reason r) (wr_upk r) (wr_trig r) (wr_wid r)
+         (wr_gas r) (Some (olist (wr_pdata r))) (wr_fgw r) (wr_ln r).
+Definition norm_obs (o : wobs) : wobs :=
+  mkWObs (Some (map norm_res (olist (wo_perf o)))) (Some (olist (wo_props o))) (Some (olist (wo_hist o))).
+Definition norm_outcome (o : wout) : wout :=
+  mkWOut (Some (map norm_res (olist (wc_agreed o)))) (Some (map (fun rd => Some (olist rd)) (olist (wc_surfaced o)))).
+
+Lemma abs_norm_res iota r : abs_res iota (norm_res r) = abs_res iota r.
+Proof. destruct r as [? ? ? ? ? ? ? ? pd ? ?]. destruct pd; reflexivity. Qed.
+
+Theorem abs_norm_obs iota o : abs_obs iota (norm_obs o) = abs_obs iota o.
+Proof.
+  unfold abs_obs, norm_obs. simpl. rewrite map_map.
+  rewrite (map_ext _ _ (abs_norm_res iota)). reflexivity.
+Qed.
+
+Theorem abs_norm_outcome iota o : abs_outcome iota (norm_outcome o) = abs_outcome iota o.
+Proof.
+  unfold abs_outcome, norm_outcome. simpl. rewrite !map_map.
+  rewrite (map_ext _ _ (abs_norm_res iota)). reflexivity.
+Qed.
